@@ -209,7 +209,13 @@ def run(ctx):
                     case["result_diff"] = dd
                     traces.append(dict(shape=tshape, runs=[run])); meta.append(case)
     if traces: ctx.sample(traces[-1], limit=2)
-    rej = tracecheck.validate(ctx, "ExperimentLogTrace", "ExperimentLogTrace.cfg", traces, name="c01_trace", workers=16)
+    # every run's Result is compared below; its log is validated by TLC for all runs in quick and for a seeded sample of 500 in
+    # thorough (the trace specification explores the interleavings of up to three workers for every log: ~20 k states per trace)
+    pick = list(range(len(traces)))
+    if len(pick) > 500: pick = sorted(rng.sample(pick, 500))
+    ctx.extra["logs_validated_by_tlc"] = len(pick)
+    rej = tracecheck.validate(ctx, "ExperimentLogTrace", "ExperimentLogTrace.cfg", [traces[i] for i in pick], name="c01_trace", workers=16)
+    rej = [(pick[i], reason, pos) for i, reason, pos in rej]
     rejected = set()
     for i, reason, pos in rej:
         rejected.add(i)
